@@ -85,6 +85,7 @@ type Engine struct {
 	ReusedArrays int
 	models    []*cachedModel
 	debugModel map[string]uint64
+	syncMaps  map[*Cell]*MapObj
 	light     *Solver
 }
 
